@@ -49,6 +49,18 @@ CHECKS = {
  "C17": ("exploration", "complete enumeration of the scalar-value domain (1 112 031 values x 4 neighbour widths) through the real helpers and through Cli sessions, against std char/str",
          "All 1 112 031 scalars >= U+0020 except U+007F: encode_utf8, char_pop_front, char_count, char_byte_index, common_prefix_len (against code-space neighbours sharing lead bytes) and Utf8Accum vs std; and one Cli session per scalar and neighbour width: type, echo, move over, delete, retype, submit as command name and quoted argument, recall from history, use as short option and see it in the derived parser's error line.",
          "Fixed session shape per scalar.", "4 C17"),
+ "C09": ("exploration", "bounded enumeration of derive declarations compiled with the repository's macros x every token line up to a bound over each command's own token alphabet, against a declaration interpreter",
+         "gen.py enumerates a bounded grammar of #[derive(Command)] / #[derive(CommandGroup)] declarations (every single-field shape: positional/option/flag x 6 types x 5 optionality forms x 8 naming forms x value_name; ordered pairs of a 10-shape subset; positional triples; nesting to depth 3; groups with hidden members and a RawCommand catch-all); cargo compiles them with /repo's macros; for every command every line of <= 3 (thorough 4) tokens over its own token alphabet is run through FromRaw::parse (structured ParseError compared exactly) and typed into a real Cli (handler value by Debug rendering, or exactly one `error:` line naming the first offending item) and compared with a reference interpreter of the declaration.",
+         "Bounded declaration grammar; lines whose meaning the statement leaves open (option without value, repeated option, tokens after -- handed to a sub-command) are executed but not compared.", "4 C09"),
+ "C11": ("exploration", "bounded enumeration of command-name sets as derived enums (and groups) x every line x cursor position x buffer size, against the longest-common-continuation rule",
+         "Every ordered list of <= 3 names from a 13-name pool (shared prefixes, one name a prefix of another, multi-byte names sharing a lead byte, `help`) is one derived enum (quick: all lists of <= 2 plus 54 triples; thorough: all 1885), plus groups of two such enums visible/hidden in both orders; for each, every line of <= 3 (4) symbols over {a,b,é,h,space}, every cursor position and every buffer size from the line length to +6 is built in a real Cli and Tab pressed; the result must be admissible by rule A.4; the derived Autocomplete is also called directly for every word and buffer length.",
+         "Where the continuation does not fit, any scalar-boundary prefix is accepted; a word followed only by blanks may be left alone.", "4 C11"),
+ "C12": ("exploration", "the C09 programs x all help-shaped lines (listing, every command and nested path in three spellings, wrong step, hidden, help option at every position), structural oracle",
+         "For every program of the C09 set: `help` must list every command of every visible group exactly once with its summary and no hidden one; help for every command and nested sub-command path (as `help p1 .. pn`, `p1 .. pn -h`, `.. --help`, with the parents' options and values in front of the sub-command name) must contain each description paragraph, a Usage row with the full path, every positional and option with names, value name and documentation, and every sub-command; an unknown step or hidden command prints only `error: unknown command`; and -h / --help / a cluster containing h inserted at every position of every argument line never reaches the handler (after -- it is an ordinary argument).",
+         "Help text is checked structurally, not against pinned text; `help -h` and `help --` are left open.", "4 C12"),
+ "C16": ("model_checking", "the C01/C05/C06 explorations and the derived-parser enumeration repeated under all 8 feature-set builds with the reference configured per build, plus a cross-build digest of the feature-independent labelled state graph",
+         "The harness is built 8 times (--no-default-features --features macros,verif-hooks[,history][,autocomplete][,help]); every build runs the C01, C05 and C06 quick explorations with the reference configured for that build (history off: Up/Down change neither line nor screen; autocomplete off: Tab likewise; help off: `help`/--help lines are dispatched like any command, incl. a derived command set with its own `help`), and the digest of the labelled state graph over the alphabet that touches no optional facility must be identical in all builds. Precondition: the library builds under all 16 combinations with/without macros.",
+         "Same bounds as C01/C05/C06 quick.", "4 C16"),
 }
 
 NOT_YET = {
@@ -76,14 +88,14 @@ def main():
             "thorough_cmd": "./check %s --tier thorough" % pid,
             "evidence_file": "/verif/evidence/%s.json" % pid,
             "replay_cmd_template": "./check %s --replay {path}" % pid,
-            "engine": "mcx",
+            "engine": "mcx-progs" if pid in ("C09", "C11", "C12") else "mcx",
             "level_claimed": {"category": level, "text": text, "design_ref": "DESIGN.md section " + ref},
             "level_note": note,
             "technique": tech,
         })
     m = {
         "version": 1,
-        "setup_cmd": "cd /verif/mc && CARGO_NET_OFFLINE=true cargo build --release --offline --workspace",
+        "setup_cmd": "cd /verif && ./tools/setup.sh",
         "hooks": {
             "guard": "cargo feature `verif-hooks` of the embedded-cli crate (not in default)",
             "enable": "harness crates depend on /repo/embedded-cli by path with features = [\"verif-hooks\", ...]",
@@ -92,8 +104,10 @@ def main():
             "add_only": True,
         },
         "engines": [
-            {"name": "mcx", "path": "/verif/mc/mcx", "serves_properties": sorted(CHECKS),
+            {"name": "mcx", "path": "/verif/mc/mcx", "serves_properties": sorted(p for p in CHECKS if p not in ("C09", "C11", "C12")),
              "kind_free_text": "explicit-state BFS / complete bounded enumeration that executes the real embedded-cli code on every transition; reference models in refs.rs"},
+            {"name": "mcx-progs", "path": "/verif/mc/mcx-progs", "serves_properties": ["C09", "C11", "C12", "C16"],
+             "kind_free_text": "programs x inputs: declarations enumerated by mc/gen/gen.py, compiled with the repository's derive macros, every bounded input line executed and compared with a declaration interpreter (interp.rs)"},
         ],
         "checks": checks,
         "not_applicable": [{"property_id": k, "reason": v} for k, v in sorted(NOT_YET.items()) if k not in CHECKS],
